@@ -107,7 +107,8 @@ Definition validate_version (c : rclass) (v : string) : res unit :=
 (* _init_field_value: at vlevel >= 1 the safe decoder must accept the text *)
 Definition init_field (O : oracle) (vlevel : nat) (dt s : string) : res unit :=
   if Nat.leb 1 vlevel then (if accepts O dt s then Ok tt else Err (G EFormat))
-  else Ok tt.   (* level 0: unsafe decoders; their failures are modelled in C07's entry points only *)
+  else if in_strs dt T_DELAYED_PARSING_DATATYPES then Ok tt          (* level 0: parsed on access *)
+  else match module_of dt with Some md => unsafe_accepts_module md s | None => Ok tt end.
 
 (* Comment: the hash sign, then whitespace (the spacer), then the content (generated regex of _init_comment_data) *)
 Definition is_space (c : ascii) : bool :=
